@@ -285,6 +285,7 @@ class Runner:
 
     def __init__(self, case):
         self.case = case
+        self.skipped = []
         self.tr_ids = {(): 0}
         for k, t in enumerate(case['pool'], 1):
             self.tr_ids[tuple(t)] = k
@@ -363,14 +364,32 @@ class Runner:
             return ('err', 3)
         finally:
             sys.setrecursionlimit(old_limit)
+        # helper-level observations (private attributes of CellConversion):
+        # read them when they are there, say so when they are not
+        cache = getattr(conv, 'cell_transform_cache', None)
+        rcache = getattr(conv, 'cell_transform_rcache', None)
+        nck = getattr(conv, 'new_cell_key', None)
+        nsk = getattr(conv, 'new_surf_key', None)
+        skipped = []
+        cache_known = isinstance(cache, dict) and isinstance(rcache, dict)
+        if not cache_known:
+            skipped.append('helper CellConversion.cell_transform_cache / '
+                           'cell_transform_rcache not present')
+        counters_known = isinstance(nck, int) and isinstance(nsk, int)
+        if not counters_known:
+            skipped.append('helper CellConversion.new_cell_key / '
+                           'new_surf_key not present')
+        self.skipped = skipped
         obs = {'du': du_obs, 'results': results,
                'cells': [(int(k), self.cell_obs(c)) for k, c in cells.items()],
                'surfs': self.surf_obs(dsm),
-               'nck': int(conv.new_cell_key), 'nsk': int(conv.new_surf_key),
+               'nck': int(nck) if counters_known else 0,
+               'nsk': int(nsk) if counters_known else 0,
                'cache': [((int(k[0]), self.tr_id(k[1])), int(v))
-                         for k, v in conv.cell_transform_cache.items()],
+                         for k, v in cache.items()] if cache_known else [],
                'rcache': [(int(k), [(int(c), self.tr_id(t)) for c, t in v])
-                          for k, v in conv.cell_transform_rcache.items()]}
+                          for k, v in rcache.items()] if cache_known else [],
+               'cache_known': cache_known, 'counters_known': counters_known}
         return ('ok', obs)
 
     def cell_obs(self, c):
@@ -450,7 +469,9 @@ def coq_obs(obs):
             + clist(cpair(cpair(cz(k), cz(t)), cz(v))
                     for (k, t), v in obs['cache']) + ' '
             + clist(cpair(cz(k), clist(cpair(cz(c), cz(t)) for c, t in v))
-                    for k, v in obs['rcache']) + ')')
+                    for k, v in obs['rcache']) + ' '
+            + cbool(obs.get('cache_known', True)) + ' '
+            + cbool(obs.get('counters_known', True)) + ')')
 
 
 def coq_case(case, runner, outcome):
